@@ -1,31 +1,340 @@
+//! C16 harness: rounds with 2–6 fixture signers; every kind of (label, signature) pair — own/own,
+//! a copy of another registered party's signature under the own label, under a party id nobody
+//! registered, with an altered `won_indexes` list, with a sub-list of the lottery indices inside the
+//! signature — submitted through the aggregator's certifier service directly
+//! (`BufferedCertifierService` over `MithrilCertifierService`: the entrance shared by the HTTP route
+//! and the message-queue consumer, which the test extensions do not expose as such) and through the
+//! buffered path (authenticated, before the open message exists, then hand-over), in all orders for
+//! up to 4 submissions per round.
+//! K: result class of every submission, the `single_signature` table (entity, label, identity of the
+//! stored signature value) and the signer list of the certificate that results, against the Lean model.
+//! S on the real table: a row stored under a label verifies with the key that label registered; no
+//! signature value is stored under two labels; a submission under one label leaves every other
+//! label's row untouched; when the rows whose own key verifies carry at least k distinct lottery
+//! indices the round is certified; the certificate's signer list names only parties whose own key
+//! produced a valid signature. The relabel witness of the repaired defect is replayed every run.
 use hagg::walk::{Gen, HistoryCfg};
 use hagg::*;
+use mithril_common::crypto_helper::ProtocolSingleSignature;
+use mithril_common::entities::SingleSignature;
+use mithril_common::protocol::ToMessage;
+
+const UNREG: usize = 1000;
+
+#[derive(Clone, Copy, Debug, PartialEq)]
+enum Var {
+    Plain,
+    /// `won_indexes` (the list next to the signature) altered
+    List,
+    /// a sub-list of the lottery indices inside the signature
+    Inner,
+}
+
+#[derive(Clone, Copy, Debug)]
+struct Sub {
+    label: usize,
+    signer: usize,
+    var: Var,
+}
+
+fn sub(label: usize, signer: usize, var: Var) -> Sub {
+    Sub { label, signer, var }
+}
+
+/// keep every second lottery index inside the STM signature (it still verifies: each kept index is won)
+fn inner_subset(sig: &SingleSignature) -> Option<SingleSignature> {
+    let hex = sig.signature.to_json_hex().ok()?;
+    let bytes: Vec<u8> = (0..hex.len()).step_by(2).map(|i| u8::from_str_radix(&hex[i..i + 2], 16).unwrap()).collect();
+    let mut v: serde_json::Value = serde_json::from_slice(&bytes).ok()?;
+    let idx = v.get("indexes")?.as_array()?.clone();
+    if idx.len() < 2 {
+        return None;
+    }
+    let kept: Vec<serde_json::Value> = idx.iter().step_by(2).cloned().collect();
+    v["indexes"] = serde_json::Value::Array(kept);
+    let out = serde_json::to_vec(&v).ok()?;
+    let hex2: String = out.iter().map(|b| format!("{:02x}", b)).collect();
+    let ps: ProtocolSingleSignature = hex2.try_into().ok()?;
+    let mut s = sig.clone();
+    s.won_indexes = ps.get_concatenation_signature_indices();
+    s.signature = ps;
+    Some(s)
+}
+
+struct Round<'a> {
+    g: &'a mut Gen,
+    fails: Vec<(String, String)>,
+}
+
+impl<'a> Round<'a> {
+    /// build and submit one (label, signature) pair for `ent`; checks that no other label's row changes
+    async fn submit(&mut self, ent: usize, s: &Sub, auth: bool) -> Option<String> {
+        let ep = self.g.w.entities[ent].get_epoch_when_signed_entity_type_is_signed().0;
+        let msg = self.g.w.message_for(ent).await?;
+        let mut sig = self.g.w.make_signature(s.signer, ep - 1, &msg)?;
+        match s.var {
+            Var::Plain => {}
+            Var::List => {
+                sig.won_indexes = sig.won_indexes.iter().skip(1).map(|i| i + 1).collect();
+            }
+            Var::Inner => {
+                sig = inner_subset(&sig)?;
+            }
+        }
+        let label = if s.label == UNREG { self.g.w.n() + 7 } else { s.label };
+        let chain_epoch = self.g.w.time_point().await.epoch.0;
+        let f = self.g.w.facts(ent, label, s.signer, &sig, &msg, auth, chain_epoch);
+        if label == s.signer && f.ok.contains(&ep) {
+            self.g.w.own_valid.entry(ent).or_default().insert(s.signer);
+        }
+        let before = self.g.w.dump();
+        let o = self.g.w.submit(&f, &sig).await;
+        let after = self.g.w.last_dump.clone();
+        let label_id = if label < self.g.w.n() { self.g.w.party_ids[label].clone() } else { String::from("pool1unregisteredpartyofnobody") };
+        for r in &before.sigs {
+            if r.party != label_id && !after.sigs.iter().any(|x| x.om == r.om && x.party == r.party && x.signature == r.signature && x.lottery == r.lottery) {
+                self.fails.push(("other-row-changed".into(), format!("a submission under label {} changed or removed the row of party {}", label, self.g.w.party_ord(&r.party))));
+            }
+        }
+        self.g.w.tags.insert(format!("sub-{}-{}-{}", if s.label == s.signer { "own" } else if s.label == UNREG { "unregistered" } else { "relabel" }, match s.var { Var::Plain => "plain", Var::List => "list", Var::Inner => "inner" }, o));
+        Some(o)
+    }
+
+    /// S clauses evaluated on the rows of the open message of `ent`; returns whether the rows whose own key verifies reach the quorum
+    fn check_rows(&mut self, ent: usize) -> bool {
+        let d = self.g.w.last_dump.clone();
+        let Some(om) = d.oms.iter().find(|o| o.ent == ent) else { return false };
+        let rows: Vec<SigRow> = d.sigs.iter().filter(|r| r.om == om.id).cloned().collect();
+        let msg = self.g.w.msg_of_ent.get(&ent).cloned().unwrap();
+        let stm_params: mithril_common::crypto_helper::ProtocolParameters = self.g.w.params.clone().into();
+        let all = self.g.w.fixture.signers_fixture();
+        let avk = self.g.w.key_crypto(om.epoch - 1).map(|k| k.multi_signer.compute_aggregate_verification_key());
+        let mut indices = std::collections::BTreeSet::new();
+        for r in &rows {
+            let p = self.g.w.party_ord(&r.party);
+            let ps: Option<ProtocolSingleSignature> = r.signature.clone().try_into().ok();
+            let verdict = match (&ps, &avk, p < self.g.w.n()) {
+                (Some(ps), Some(avk), true) => {
+                    let own = &all[p].signer_with_stake;
+                    let stm: mithril_common::crypto_helper::ProtocolSingleSignature = ps.clone();
+                    let stm_sig = SingleSignature::new(r.party.clone(), stm, vec![]).to_protocol_signature();
+                    let ok = stm_sig.verify(&stm_params, &own.verification_key_for_concatenation.vk, &own.stake, avk, msg.to_message().as_bytes()).is_ok();
+                    if ok {
+                        for i in stm_sig.get_concatenation_signature_indices() {
+                            indices.insert(i);
+                        }
+                    }
+                    ok
+                }
+                _ => false,
+            };
+            if !verdict {
+                self.fails.push(("attribution".into(), format!("entity {}: the signature stored under party {} does not verify with the key that party registered", ent, p)));
+            }
+        }
+        for (i, a) in rows.iter().enumerate() {
+            for b in rows.iter().skip(i + 1) {
+                if a.signature == b.signature {
+                    self.fails.push(("two-labels".into(), format!("entity {}: one signature value is stored under parties {} and {}", ent, self.g.w.party_ord(&a.party), self.g.w.party_ord(&b.party))));
+                }
+            }
+        }
+        indices.len() as u64 >= self.g.w.params.k
+    }
+}
+
+/// the submission sets of the corpus (A = 0, B = 1, C = 2 when there are three signers)
+fn sets(n: usize) -> Vec<Vec<Sub>> {
+    use Var::*;
+    let (a, b) = (0usize, 1usize);
+    let c = if n >= 3 { 2 } else { 0 };
+    let mut v = vec![
+        vec![sub(b, b, Plain), sub(a, b, Plain)],                                         // the witness: copy of B under A
+        vec![sub(a, a, Plain), sub(b, b, Plain), sub(a, b, Plain)],
+        vec![sub(a, b, Plain), sub(a, a, Plain)],
+        vec![sub(a, a, Plain), sub(a, b, Plain), sub(b, b, Plain), sub(b, a, Plain)],
+        vec![sub(UNREG, b, Plain), sub(b, b, Plain)],
+        vec![sub(a, a, List), sub(b, b, Plain)],
+        vec![sub(a, b, List), sub(b, b, Plain), sub(a, a, Plain)],
+        vec![sub(a, a, Inner), sub(a, a, Plain)],
+        vec![sub(a, b, Inner), sub(b, b, Plain)],
+        vec![sub(a, a, Plain), sub(b, b, Plain), sub(a, b, Plain), sub(UNREG, a, Plain)],
+        vec![sub(a, a, Plain), sub(a, a, Inner), sub(b, b, Inner)],
+    ];
+    if n >= 3 {
+        v.push(vec![sub(a, c, Plain), sub(b, c, Plain), sub(c, c, Plain)]);
+        v.push(vec![sub(c, a, Plain), sub(c, b, Plain), sub(c, c, Plain), sub(a, a, Plain)]);
+    }
+    v
+}
+
+fn permutations(n: usize, cap: usize, rng: &mut Rng) -> Vec<Vec<usize>> {
+    let mut out = vec![];
+    let mut p: Vec<usize> = (0..n).collect();
+    fn rec(k: usize, p: &mut Vec<usize>, out: &mut Vec<Vec<usize>>) {
+        if k == p.len() {
+            out.push(p.clone());
+            return;
+        }
+        for i in k..p.len() {
+            p.swap(k, i);
+            rec(k + 1, p, out);
+            p.swap(k, i);
+        }
+    }
+    rec(0, &mut p, &mut out);
+    if out.len() > cap {
+        rng.shuffle(&mut out);
+        out.truncate(cap);
+    }
+    out
+}
+
+async fn new_world(name: &str, n: usize, k: u64) -> Gen {
+    let cfg = HistoryCfg { n_signers: n, k, m: 100, events: 0, with_csd: false, restarts: false, jumps: false, sparse_regs: false };
+    let mut g = Gen::new(name, &cfg).await;
+    g.w.tick().await;
+    for p in 0..n {
+        g.w.register(p, 2).await;
+    }
+    g.w.epoch_up(1).await;
+    for _ in 0..3 {
+        g.w.tick().await;
+    }
+    g
+}
+
+/// bring the state machine to `ready` with nothing left to sign at the current time point
+async fn settle_ready(g: &mut Gen) {
+    for _ in 0..8 {
+        if g.w.tester.runtime.state_label() == "ready" {
+            let tp = g.w.time_point().await;
+            let avail = g.w.avail(&tp);
+            let d = g.w.last_dump.clone();
+            if avail.iter().all(|e| d.oms.iter().any(|o| o.ent == *e && (o.certified || o.expired))) {
+                return;
+            }
+        }
+        g.drive().await;
+    }
+}
 
 #[tokio::main(flavor = "multi_thread", worker_threads = 4)]
 async fn main() {
+    let args = Args::parse();
     silence_stdout();
     install_panic_hook();
-    let cfg = HistoryCfg { n_signers: 3, k: 5, m: 100, events: 0, with_csd: false, restarts: false, jumps: false, sparse_regs: false };
-    let mut g = Gen::new("c16_probe", &cfg).await;
-    g.w.tick().await;
-    for p in 0..3 { g.w.register(p, 2).await; }
-    g.w.epoch_up(1).await;
-    for _ in 0..3 { g.w.tick().await; }
-    let ent = g.w.last_dump.oms[0].ent;
-    // B = 1 signs under own label
-    eprintln!("B own: {:?}", g.sign_and_submit_as(ent, 1, 1, 1, false, ent).await);
-    // copy of B's signature under label A = 0
-    eprintln!("B as A: {:?}", g.sign_and_submit_as(ent, 1, 0, 1, false, ent).await);
-    let d = g.w.dump();
-    for r in &d.sigs { eprintln!("row party={} sigma={}", g.w.party_ord(&r.party), &r.signature[..24]); }
-    let (ok, _) = g.w.tick().await;
-    eprintln!("tick ok={} certs={}", ok, g.w.last_cert_count);
-    eprintln!("A own: {:?}", g.sign_and_submit_as(ent, 0, 0, 1, false, ent).await);
-    let (ok, _) = g.w.tick().await;
-    eprintln!("tick ok={} certs={}", ok, g.w.last_cert_count);
-    // unregistered label
-    g.w.tick().await;
-    let ent2 = g.w.last_dump.oms.last().unwrap().ent;
-    eprintln!("C as nobody: {:?}", g.sign_and_submit_as(ent2, 2, 3 + 7, 1, false, ent2).await);
-    for o in &g.w.obs { eprintln!("{}", o); }
+    let mut sink = Sink::new(&args);
+    let mut totals: std::collections::BTreeMap<String, u64> = Default::default();
+
+    // ---- case 0: the witness of the repaired defect, replayed through the real certifier and table
+    if sink.wanted() {
+        let mut g = new_world(&format!("c16_{}_witness", args.seed), 3, 5).await;
+        let ent = g.w.last_dump.oms[0].ent;
+        let mut r = Round { g: &mut g, fails: vec![] };
+        let o1 = r.submit(ent, &sub(1, 1, Var::Plain), false).await.unwrap_or_default();
+        let o2 = r.submit(ent, &sub(0, 1, Var::Plain), false).await.unwrap_or_default();
+        let d = r.g.w.last_dump.clone();
+        let same = d.sigs.len() == 2 && d.sigs[0].signature == d.sigs[1].signature;
+        let (ok, _) = r.g.w.tick().await;
+        let reproduced = o2 == "registered";
+        sink.witness(
+            "C16-relabel",
+            reproduced,
+            &format!("B own -> {}; copy of B's signature under label A -> {}; same value under two labels: {}; next tick certifies: {}", o1, o2, same, ok),
+        );
+        // a valid signature under a party id nobody registered (made the store panic on its foreign key)
+        r.g.w.tick().await;
+        let ent2 = r.g.w.last_dump.oms.last().unwrap().ent;
+        let o3 = r.submit(ent2, &sub(UNREG, 2, Var::Plain), false).await.unwrap_or_default();
+        sink.witness("C16-unregistered-label-panic", o3 == "panic" || o3 == "registered", &format!("C's signature under an unregistered party id -> {}", o3));
+        r.check_rows(ent);
+        let fails = std::mem::take(&mut r.fails);
+        g.w.check_store("witness world").await;
+        let req = g.w.request("c16.run");
+        let idx = sink.case("witness", &req, &g.w.observation());
+        for (c, w) in fails.iter().chain(g.w.sfails.iter()) {
+            sink.sfail(idx, c, w, &req);
+        }
+    } else {
+        sink.skip();
+    }
+
+    // ---- worlds with 2..6 signers, every submission set in both modes and all orders
+    let worlds: Vec<(usize, u64)> = if args.thorough() {
+        vec![(2, 5), (3, 40), (4, 5), (5, 40), (6, 5), (2, 40), (3, 5), (4, 40), (5, 5), (6, 40)]
+    } else {
+        vec![(2, 5), (3, 40), (4, 5), (5, 40), (6, 5)]
+    };
+    for (wi, (n, k)) in worlds.iter().enumerate() {
+        if !sink.wanted() {
+            sink.skip();
+            continue;
+        }
+        let mut rng = Rng::new(args.seed.wrapping_mul(9_000_011).wrapping_add(wi as u64));
+        let mut g = new_world(&format!("c16_{}_{}", args.seed, wi), *n, *k).await;
+        // first the stake-distribution round of the epoch, signed by everybody
+        settle_ready(&mut g).await;
+        let all_sets = sets(*n);
+        let mut fails: Vec<(String, String)> = vec![];
+        let mut rounds = 0u64;
+        for (si, set) in all_sets.iter().enumerate() {
+            // quick: each world takes the sets congruent to it (every set runs in some world); thorough: all
+            if !args.thorough() && si % 5 != wi % 5 && !(si >= 11 && *n >= 3 && wi % 2 == 1) {
+                continue;
+            }
+            let cap = if args.thorough() { 24 } else { 12 };
+            for perm in permutations(set.len(), cap, &mut rng) {
+                for buffered in [false, true] {
+                    rounds += 1;
+                    // a new beacon opens a new round
+                    settle_ready(&mut g).await;
+                    g.w.immutable_up().await;
+                    let tp = g.w.time_point().await;
+                    let avail = g.w.avail(&tp);
+                    let Some(ent) = avail.iter().copied().find(|e| !g.w.last_dump.oms.iter().any(|o| o.ent == *e)) else { continue };
+                    let mut r = Round { g: &mut g, fails: vec![] };
+                    if !buffered {
+                        r.g.w.tick().await; // ready -> signing: the open message exists
+                    }
+                    for i in &perm {
+                        r.submit(ent, &set[*i], buffered).await;
+                    }
+                    if buffered {
+                        r.g.w.tick().await; // the open message is created and the buffered signatures are handed over
+                    }
+                    let quorum = r.check_rows(ent);
+                    let before = r.g.w.last_cert_count;
+                    let (ok, _) = r.g.w.tick().await;
+                    let certified = r.g.w.last_cert_count > before;
+                    if quorum && !certified {
+                        r.fails.push(("contribution-vanished".into(), format!("entity {}: the rows whose own key verifies carry at least k distinct lottery indices but the round was not certified (tick ok = {})", ent, ok)));
+                    }
+                    if !quorum && certified {
+                        r.fails.push(("quorum".into(), format!("entity {} certified although the rows whose own key verifies carry fewer than k distinct lottery indices", ent)));
+                    }
+                    fails.append(&mut r.fails);
+                    if !certified {
+                        // let the honest parties finish the round so that the next one starts clean
+                        g.drive().await;
+                    }
+                }
+            }
+        }
+        g.w.check_store("end of world").await;
+        let req = g.w.request("c16.run");
+        let idx = sink.case(&format!("world-n{}-k{}", n, k), &req, &g.w.observation());
+        for (c, w) in fails.iter().chain(g.w.sfails.iter()) {
+            sink.sfail(idx, c, w, &req);
+        }
+        for t in &g.w.tags {
+            *totals.entry(t.clone()).or_insert(0) += 1;
+        }
+        *totals.entry("rounds".into()).or_insert(0) += rounds;
+        *totals.entry("events".into()).or_insert(0) += g.w.events.len() as u64;
+    }
+    for (k, v) in totals {
+        sink.note(&format!("hit.{}", k), &v.to_string());
+    }
+    sink.finish();
 }
